@@ -28,6 +28,10 @@ if (n > 0) {
   if (mode == "routed") { _.out({to: target, trail: t + "r", n: n - 1}); }
   else if (mode == "unrouted") { _.out({trail: t + "u", n: n - 1}); }
   else if (mode == "two") { _.out({to: target, trail: t + "1", n: n - 1}); _.out({trail: t + "2", n: n - 1}); }
+  else if (mode == "refwd") {
+    // forward what was received: the very object the message arrived as, re-addressed and emitted twice
+    var p = m; p.n = n - 1; p.to = target; p.trail = t + "f"; _.out(p); p.to = id; p.trail = t + "g"; _.out(p);
+  }
   else if (mode == "list") { _.out({to: [target, id, target], trail: t + "l", n: n - 1}); }
   else if (mode == "spawn") {
     // create machine "x" (a plain recorder) through the captain, then greet it - both within this cascade
@@ -194,6 +198,9 @@ func refRoute(cs c14Case) (logs map[string][]string, emitted []string) {
 				case "two":
 					queue = append(queue, refMsg{to: rm.Target, hasTo: true, trail: t + "1", n: m.n - 1}, refMsg{trail: t + "2", n: m.n - 1})
 					emitted = append(emitted, t+"1", t+"2")
+				case "refwd":
+					queue = append(queue, refMsg{to: rm.Target, hasTo: true, trail: t + "f", n: m.n - 1}, refMsg{to: id, hasTo: true, trail: t + "g", n: m.n - 1})
+					emitted = append(emitted, t+"f", t+"g")
 				case "list":
 					queue = append(queue, refMsg{to: []interface{}{rm.Target, id, rm.Target}, hasTo: true, trail: t + "l", n: m.n - 1})
 					emitted = append(emitted, t+"l")
@@ -399,7 +406,7 @@ func toSig(x interface{}) string {
 }
 
 func c14Crews(thorough bool) [][]recMachine {
-	modes := []recMachine{{Mode: "none"}, {Mode: "routed", Target: "a"}, {Mode: "routed", Target: "b"}, {Mode: "unrouted"}, {Mode: "two", Target: "b"}, {Mode: "list", Target: "a"}, {Mode: "routed", Target: "*"}, {Mode: "routed", Target: "zz"}, {Mode: "spawn"}}
+	modes := []recMachine{{Mode: "none"}, {Mode: "routed", Target: "a"}, {Mode: "routed", Target: "b"}, {Mode: "unrouted"}, {Mode: "two", Target: "b"}, {Mode: "list", Target: "a"}, {Mode: "routed", Target: "*"}, {Mode: "routed", Target: "zz"}, {Mode: "spawn"}, {Mode: "refwd", Target: "b"}}
 	var out [][]recMachine
 	ids := []string{"a", "b", ""}
 	for _, ma := range modes {
@@ -475,7 +482,7 @@ func C14sio(c *vh.Ctx) {
 	depth := c.Pick(2, 3)
 	c.Bound("sio_counter_depth", depth)
 	c.Bound("sio_map_order_deviations", bound)
-	c.Rule("sio: crews of 1-3 recorder machines (ids a, b, \"\"; each appends every message it receives to a log in its bindings and emits according to its mode {nothing, one routed to X, one unrouted, two (routed+unrouted), one routed to a list with a repeated id}, optionally one machine that has a state but no specification, which can be shown nothing) plus the built-in timers and captain; first message with every routing target {absent, a, b, unknown id, \"*\", lists with unknown / repeated / non-string members, empty list, \"timers\", \"captain\", a number, \"\"} and a non-map message; also after a change of membership (a warm-up broadcast, then the captain replaces one machine by another - in one message, delete-then-create, create-then-delete - so that the crew has the same size but other members); counter depth up to the bound; every machine-iteration order with at most k deviating map ranges (vrange); oracle: a breadth-first reference router with the documented recipient rule - per machine the multiset of received messages, breadth-first order, every emitted message reported exactly once, emission order kept. states = (crew, target) cases, traces = executions.")
+	c.Rule("sio: crews of 1-3 recorder machines (ids a, b, \"\"; each appends every message it receives to a log in its bindings and emits according to its mode {nothing, one routed to X, one unrouted, two (routed+unrouted), one routed to a list with a repeated id, the received object itself re-addressed and emitted twice}, optionally one machine that has a state but no specification, which can be shown nothing) plus the built-in timers and captain; first message with every routing target {absent, a, b, unknown id, \"*\", lists with unknown / repeated / non-string members, empty list, \"timers\", \"captain\", a number, \"\"} and a non-map message; also after a change of membership (a warm-up broadcast, then the captain replaces one machine by another - in one message, delete-then-create, create-then-delete - so that the crew has the same size but other members); counter depth up to the bound; every machine-iteration order with at most k deviating map ranges (vrange); oracle: a breadth-first reference router with the documented recipient rule - per machine the multiset of received messages, breadth-first order, every emitted message reported exactly once, emission order kept. states = (crew, target) cases, traces = executions.")
 	var idx uint64
 	for _, cr := range c14Crews(!c.Quick()) {
 		spawners := 0
